@@ -72,10 +72,42 @@ def _work(item):
     return rec
 
 
-def run_tv(prop, tier, seed, cases, rule, functions, bounds, assumptions, quick_max=None, quick_filter=None, post=None):
+def with_case_variants(cases, tier, seed, every=3):
+    """add, for every case (thorough) or every third case (quick, rotated by the seed), a sibling whose source re-spells the
+    occurrences of all user identifiers in another letter case (same program in Fortran): the property must hold for it too"""
+    from vlib.casevar import permute_case  # pylint: disable=import-outside-toplevel
+    out = list(cases)
+    for k, c in enumerate(cases):
+        if tier == 'quick' and (k + seed) % every:
+            continue
+        if 'frontend-limit' in c.name:
+            continue
+        new_src = permute_case(c.src)
+        if new_src == c.src:
+            continue
+        v = Case(c.name + '~case', new_src, c.entry, c.sizes, c.apply, c.group, c.absent, c.include_locals, c.unwind, c.must_change,
+                 c.note, c.raise_is_violation, c.custom, c.trace_pragmas)
+        if c.apply is not None and hasattr(c.apply, 'src'):
+            def wrapped(p, f=c.apply, text=new_src):        # transformations that write their own copy of the source to disk
+                old, f.src = f.src, text
+                try:
+                    return f(p)
+                finally:
+                    f.src = old
+            v.apply = wrapped
+        out.append(v)
+    return out
+
+
+def run_tv(prop, tier, seed, cases, rule, functions, bounds, assumptions, quick_max=None, quick_filter=None, post=None,
+           case_variants=True):
     global CASES  # pylint: disable=global-statement
     ctx = Ctx(prop, tier, seed, 'translation_validation')
     ctx.rule, ctx.functions, ctx.bounds, ctx.assumptions = rule, functions, bounds, assumptions
+    if case_variants:
+        n0 = len(cases)
+        cases = with_case_variants(cases, tier, seed)
+        ctx.extra['letter_case_variants'] = len(cases) - n0
     CASES = cases
     CASES_BY_NAME.update({c.name: c for c in cases})
     items = []
@@ -101,7 +133,7 @@ def run_tv(prop, tier, seed, cases, rule, functions, bounds, assumptions, quick_
             # the operation under test must at least produce a result (e.g. pickling): concrete failure, replay = re-run
             ctx.verdict('raises')
             ctx.obligation(key)
-            ctx.candidate(f"{rec['group']}:raises:{rec['case']}", f"{key}: {rec['why']}", {'case': rec['case'], 'sizes': rec['sizes'], 'raises': True})
+            ctx.candidate(f"{rec['group']}:raises:{rec['case'].replace('~case', '')}", f"{key}: {rec['why']}", {'case': rec['case'], 'sizes': rec['sizes'], 'raises': True})
             continue
         if v == 'transform-raises':
             if 'to edit' in rec['why'] or 'to re-type' in rec['why']:
@@ -133,7 +165,7 @@ def run_tv(prop, tier, seed, cases, rule, functions, bounds, assumptions, quick_
             ctx.inconcl(f'{key}: solver unknown')
             continue
         # sat
-        sig = f"{rec['group']}:{rec['case']}"
+        sig = f"{rec['group']}:{rec['case'].replace('~case', '')}"
         what = (f"{rec['case']} sizes={rec['sizes']}: {rec.get('replay_msg')}; solver: differences {rec.get('differences')} "
                 f"trap={rec.get('trap2')} {rec.get('trap2_reasons')}")
         if rec.get('replayed'):
@@ -153,6 +185,7 @@ def run_tv(prop, tier, seed, cases, rule, functions, bounds, assumptions, quick_
 def replay_tv(path, cases):
     global CASES  # pylint: disable=global-statement
     d = json.load(open(path))['replay']
+    cases = with_case_variants(cases, 'thorough', 0)
     CASES = cases
     for ci, c in enumerate(cases):
         if c.name == d['case']:
